@@ -404,6 +404,26 @@ def errors_and_nodes(sql, dialect, res, record):
                         record("node.span", dialect, "nodes", sql, f"[{where}] identifier {name!r} records span {m['start']}..{m['end']} = {seg!r}")
                     elif 0 <= m["end"] < len(sql) and (m.get("line"), m.get("col")) != pos[m["end"]]:
                         record("node.linecol", dialect, "nodes", sql, f"identifier {name!r} records line/col {(m.get('line'), m.get('col'))}, text position {pos[m['end']]}")
+            elif isinstance(node, (exp.Star, exp.Literal)):
+                # positions recorded on other leaves: a star that is written in the text must select its `*`, a literal whose text
+                # occurs in the statement must select a lexeme containing it (synthesised stars / literals have no lexeme: not judged)
+                m = node._meta or {}
+                if isinstance(m.get("start"), int) and isinstance(m.get("end"), int):
+                    seg = sql[m["start"]:m["end"] + 1]
+                    if isinstance(node, exp.Star):
+                        # (a star synthesised for FROM-first / pipe syntax carries the default position 0..0 and has no lexeme)
+                        if "*" in sql and not node.find_ancestor(exp.Hint) and not (m["start"] == 0 and m["end"] == 0 and sql[:1] != "*"):
+                            res["nodes_checked"] += 1
+                            if seg != "*":
+                                record("node.span", dialect, "nodes", sql, f"[Star] the star records span {m['start']}..{m['end']} = {seg!r}")
+                            elif 0 <= m["end"] < len(sql) and (m.get("line"), m.get("col")) != pos[m["end"]]:
+                                record("node.linecol", dialect, "nodes", sql, f"star records line/col {(m.get('line'), m.get('col'))}, text position {pos[m['end']]}")
+                    else:
+                        text = str(node.this)
+                        if text and text.lower() in sql.lower() and "\\" not in text and "'" not in text and not node.find_ancestor(exp.Hint):
+                            res["nodes_checked"] += 1
+                            if text.lower() not in seg.lower():
+                                record("node.span", dialect, "nodes", sql, f"[Literal] literal {text!r} records span {m['start']}..{m['end']} = {seg!r}")
     # (c) single-token deletions / duplications -> ParseError entries
     variants = []
     for i in range(len(tokens)):
